@@ -5,9 +5,11 @@ package harness
 import (
 	"encoding/json"
 	"fmt"
+	sio "github.com/karagenc/socket.io-go"
 	"sync"
 	"sync/atomic"
 	"testing"
+	"time"
 
 	"pgregory.net/rapid"
 )
@@ -221,4 +223,160 @@ func TestC18_OffConcurrent(t *testing.T) {
 
 func init() {
 	registerReplay(c18CheckConc, func(raw json.RawMessage) *Failure { return evalC18Conc(decodeCase[c18ConcCase](raw)) })
+}
+
+// ---- removal of all handlers from inside a handler ---------------------------------------------------------------------------------
+
+const c18CheckReent = "c18-off-inside-handler"
+
+type c18ReentCase struct {
+	Kind   string `json:"kind"`   // namespace-connection | server-any-connection | client-connect
+	Before int    `json:"before"` // On handlers registered before the one that removes
+	After  int    `json:"after"`  // On handlers registered after it (still to run when it removes)
+	Action string `json:"action"` // off (the Off method without a handler) | offall | replace (Off without a handler, then On(new))
+	Occs   int    `json:"occs"`
+}
+
+func evalC18Reent(c c18ReentCase) *Failure {
+	fail := func(clause, detail string) *Failure {
+		return &Failure{Property: "C18", Check: c18CheckReent, Clause: clause, Class: c.Kind, Detail: detail, Case: c}
+	}
+	journal(c18CheckReent, c.Kind, c)
+	var res *Failure
+	msg := runRig(rigOpts{}, func(r *rig) {
+		nsp := r.Server.Of("/")
+		cli := r.manager([]string{"websocket"}, nil).Socket("/", nil)
+		// on registers handler number h; remover registers the handler that removes everything when it runs
+		var on func(h int)
+		var remove func()
+		switch c.Kind {
+		case "namespace-connection":
+			on = func(h int) { nsp.OnConnection(func(sio.ServerSocket) { c18rec(h) }) }
+			remove = func() {
+				if c.Action == "offall" {
+					nsp.OffAll()
+				} else {
+					nsp.OffConnection()
+				}
+			}
+		case "server-any-connection":
+			on = func(h int) { r.Server.OnAnyConnection(func(string, sio.ServerSocket) { c18rec(h) }) }
+			remove = func() { r.Server.OffAnyConnection() }
+		default:
+			on = func(h int) { cli.OnConnect(func() { c18rec(h) }) }
+			remove = func() {
+				if c.Action == "offall" {
+					cli.OffAll()
+				} else {
+					cli.OffConnect()
+				}
+			}
+		}
+		remover := func() {
+			c18rec(100)
+			if pm, _ := catchPanic(remove); pm != "" {
+				c18rec(999)
+			}
+			if c.Action == "replace" {
+				on(50)
+			}
+		}
+		for h := 0; h < c.Before; h++ {
+			on(h)
+		}
+		switch c.Kind {
+		case "namespace-connection":
+			nsp.OnConnection(func(sio.ServerSocket) { remover() })
+		case "server-any-connection":
+			r.Server.OnAnyConnection(func(string, sio.ServerSocket) { remover() })
+		default:
+			cli.OnConnect(remover)
+		}
+		for h := 0; h < c.After; h++ {
+			on(10 + h)
+		}
+		c18take()
+		for occ := 1; occ <= c.Occs && res == nil; occ++ {
+			tick()
+			if c.Kind == "client-connect" {
+				if occ > 1 {
+					cli.Disconnect()
+					settle(100 * time.Millisecond)
+				}
+				cli.Connect()
+			} else {
+				r.manager([]string{"websocket"}, nil).Socket("/", nil).Connect()
+			}
+			settle(time.Second)
+			got := map[int]int{}
+			for _, h := range c18take() {
+				got[h]++
+			}
+			if got[999] > 0 {
+				res = fail("no-panic", fmt.Sprintf("occurrence %d: the removal of all handlers, called from inside a handler, panicked", occ))
+				return
+			}
+			if occ == 1 {
+				// the occurrence during which the removal happens: what ran before it ran once; what was still to run may or may not
+				for h := 0; h < c.Before; h++ {
+					if got[h] != 1 {
+						res = fail("on-every-time", fmt.Sprintf("occurrence 1: handler %d, registered before the removing one, ran %d times (ran %v)", h, got[h], got))
+						return
+					}
+				}
+				if got[100] != 1 {
+					res = fail("on-every-time", fmt.Sprintf("occurrence 1: the removing handler ran %d times (ran %v)", got[100], got))
+					return
+				}
+				for h, n := range got {
+					if n > 1 {
+						res = fail("on-every-time", fmt.Sprintf("occurrence 1: handler %d ran %d times (ran %v)", h, n, got))
+						return
+					}
+				}
+				continue
+			}
+			want := map[int]int{}
+			if c.Action == "replace" {
+				want[50] = 1
+			}
+			for h := range got {
+				if got[h] != want[h] {
+					res = fail("off-removes-exactly-what-it-names", fmt.Sprintf("occurrence %d, after all handlers were removed from inside a handler during occurrence 1: ran %v, want %v", occ, got, want))
+					return
+				}
+			}
+			if c.Action == "replace" && got[50] != 1 {
+				res = fail("on-every-time", fmt.Sprintf("occurrence %d: the handler registered right after the removal ran %d times", occ, got[50]))
+				return
+			}
+		}
+	})
+	if res == nil && msg != "" && !isBubbleDeadlock(msg) {
+		res = fail("bubble-panic", "synctest: "+msg)
+	}
+	return res
+}
+
+func TestC18_OffInsideHandler(t *testing.T) {
+	setT(t)
+	defer startWatchdog(t, 90*1e9)()
+	ev := NewEv(t, "C18", c18CheckReent, "the Off method without a handler / OffAll / Off then On(new), called from inside a handler while the occurrence is being delivered, with 0..2 On handlers "+
+		"registered before it and 1..3 after it (still to run), on Namespace.OnConnection, Server.OnAnyConnection and ClientSocket.OnConnect, 2..3 real occurrences; oracle: nothing panics or crashes, what ran before "+
+		"the removal ran once, and from the next occurrence on exactly the handlers registered after the removal run; non-trivial = every case")
+	rapidGuard(t, "C18", c18CheckReent)
+	runRapid(t, c18CheckReent, tierN(300, 4000), func(t *rapid.T) {
+		c := c18ReentCase{Kind: rapid.SampledFrom([]string{"namespace-connection", "server-any-connection", "client-connect"}).Draw(t, "kind"),
+			Before: rapid.IntRange(0, 2).Draw(t, "before"), After: rapid.IntRange(1, 3).Draw(t, "after"),
+			Action: rapid.SampledFrom([]string{"off", "offall", "replace"}).Draw(t, "action"), Occs: rapid.IntRange(2, 3).Draw(t, "occs")}
+		ev.Case(c, true, c.Kind)
+		ev.Sample(c.Kind, c)
+		if f := evalC18Reent(c); f != nil {
+			FailRapid(t, *f)
+		}
+	})
+}
+
+func init() {
+	registerReplay(c18CheckReent, func(raw json.RawMessage) *Failure { return evalC18Reent(decodeCase[c18ReentCase](raw)) })
 }
